@@ -6,7 +6,8 @@ EXTENDS Persistence, Json
      over a hidden variable is not evaluated on states that are duplicates under the view)
    - B-edge generation: one JSON line per transition with the keys of the source and target states,
      the call, what the call returned (obs), what every get_<t>(i) WOULD return afterwards according
-     to the model (reads) and what the database holds (truth).                                     *)
+     to the model (reads), what the database holds (truth) and the value of each property in the target
+     state (so that the as-is model's counterexamples come out of the same run).                    *)
 PopsSelf == [t \in Updatable |-> t]
 PopsNone == [t \in Updatable |-> "none"]
 
@@ -29,7 +30,7 @@ Emit(name, args) ==
                  act   |-> name, args |-> args, focus |-> focus, depth |-> depth', obs |-> obs',
                  reads |-> [t \in Tables |-> [i \in 1..Len(rows'[t]) |-> Read(t, i)']],
                  truth |-> rows',
-                 coherent |-> CacheCoherent', separate |-> RetsSeparate']))
+                 getok |-> GetReturnsDbRow', coherent |-> CacheCoherent', separate |-> RetsSeparate']))
 
 GenNext == \/ \E t \in Tables : Add(t) /\ Emit("add", <<t>>)
            \/ \E t \in Tables, i \in 1..MaxId, f \in Fields : Update(t, i, f) /\ Emit("update", <<t, i, f>>)
